@@ -60,7 +60,13 @@ func (w *World) RunConnWorld() {
 		}
 	}
 	for i, cc := range p.Conns {
-		conn, err := rpc.DialWithOptions(addrOf(cc.Server), w.options(cc.BufferSize))
+		var conn *rpc.Conn
+		var err error
+		if p.Plain {
+			conn, err = rpc.Dial("sim", addrOf(cc.Server), p.Codec)
+		} else {
+			conn, err = rpc.DialWithOptions(addrOf(cc.Server), w.options(cc.BufferSize))
+		}
 		if err != nil {
 			w.Notes = append(w.Notes, fmt.Sprintf("dial conn %d: %v", i, err))
 			continue
